@@ -31,11 +31,6 @@ pub(super) struct Debugger {
     status: Status,
 
     breakpoints: Breakpoints,
-    /// Used to allow breakpoint to be ignored if it just broke execution.
-    ///
-    /// Compare this with a `HALT` instruction, which is NEVER ignored with basic commands
-    /// ("progress", "next", "continue", "finish").
-    current_breakpoint: Option<u16>,
 
     /// Amount of instructions executed since last command.
     instruction_count: u32,
@@ -130,7 +125,6 @@ impl Debugger {
             status: Status::default(),
 
             breakpoints: breakpoints.into(),
-            current_breakpoint: None,
 
             instruction_count: 0,
             should_echo_pc: true,
@@ -250,13 +244,9 @@ impl Debugger {
     /// Breaking on `RET`/`RETS` (for "finish"), and at end of "progress" and "next" is handled
     /// later.
     fn check_interrupts(&mut self, pc: u16, instr: Option<SignificantInstr>) {
-        // Remember if previous cycle paused on the same breakpoint
-        // If so, don't break now
-        if let Some(breakpoint) = self
-            .breakpoints
-            .get(pc)
-            .filter(|_| self.current_breakpoint != Some(pc))
-        {
+        // A resuming command always executes the instruction at PC before the next check, so a
+        // breakpoint never needs to be ignored "because it just broke execution"
+        if let Some(breakpoint) = self.breakpoints.get(pc) {
             if breakpoint.is_predefined {
                 dprintln!(
                     Alternate,
@@ -272,12 +262,11 @@ impl Debugger {
                     ["Reached runtime breakpoint. Pausing execution."]
                 );
             }
-            self.current_breakpoint = Some(pc);
             self.status = Status::WaitForAction;
             return;
         }
 
-        // Always break on `HALT` (unlike breakpoints)
+        // Always break on `HALT`
         if instr == Some(SignificantInstr::Halt) {
             dprintln!(
                 Alternate,
@@ -286,11 +275,7 @@ impl Debugger {
                 ["Reached HALT. Pausing execution."],
             );
             self.status = Status::WaitForAction;
-            return;
         }
-
-        // Only reset current breakpoint if not interrupted.
-        self.current_breakpoint = None;
     }
 
     /// Read and execute the next [`Command`], returning an [`Action`] if it is raised.
